@@ -266,60 +266,92 @@ func c10r2(c *Check) {
 	c.Judge(okCut, "aggregator.run flushes with cutoff = tick − Wait", c.AtFn(run), "the cutoff derives from the Wait field", "the cutoff handed to Flush does not depend on Wait")
 }
 
-func c10r3(c *Check) {
+// c10flushLoop: the functions that make up Flush (Flush, the helper methods only it runs, their
+// closures) and the loop over tsList among them.
+func c10flushLoop(c *Check) (funcs []*ssa.Function, lf *ssa.Function, outer *Loop) {
 	fl := c.P.Func("aggregator", "*Aggregator", "Flush")
-	outF := c.P.Field("aggregator", "Aggregator", "out")
-	aggsF := c.P.Field("aggregator", "Aggregator", "aggregations")
 	tsF := c.P.Field("aggregator", "Aggregator", "tsList")
-	loops := loopsOf(fl)
-	var outer *Loop
-	for _, l := range loops {
-		if sl, _, ok := rangeLoopOver(l); ok && isFieldLoad(sl, tsF) {
-			outer = l
+	own := ownHelpers(c.P, fl)
+	for _, f := range workerFuncs(c.P, fl) {
+		if own[EnclosingDecl(f)] {
+			funcs = append(funcs, f)
+		}
+	}
+	for _, f := range funcs {
+		for _, l := range loopsOf(f) {
+			if sl, _, ok := rangeLoopOver(l); ok && isFieldLoad(sl, tsF) {
+				lf, outer = f, l
+			}
 		}
 	}
 	if outer == nil {
 		anchorFail("Flush: range loop over tsList not found")
 	}
-	sends := sendsOn(fl, outF)
-	var del ssa.Instruction
-	var dels []ssa.Instruction
-	allInstrs(fl, func(in ssa.Instruction) {
-		if cc, ok := isBuiltinCall(in, "delete"); ok && isFieldLoad(cc.Args[0], aggsF) {
-			del = in
-			dels = append(dels, in)
+	return
+}
+
+// insideLoop: the functions among funcs (other than lf) whose every call site lies in the body of
+// lf's loop l, directly or in another such function.
+func insideLoop(p *Prog, funcs []*ssa.Function, lf *ssa.Function, l *Loop) map[*ssa.Function]bool {
+	g := p.CG()
+	in := map[*ssa.Function]bool{}
+	for _, f := range funcs {
+		if f != lf {
+			in[f] = true
 		}
-	})
-	if len(sends) == 0 || del == nil {
-		c.Violate("aggregator.Flush emits and forgets", c.AtFn(fl), "sends on Aggregator.out or delete(aggregations, ts) not found")
-		return
 	}
-	okOrder := outer.Body[del.Block()]
-	for _, s := range sends {
-		if !outer.Body[s.Block()] {
-			okOrder = false
-		}
-		// no send reachable after a delete within the same iteration
-		for _, d := range dels {
-			if instrReachAvoiding(d, s, outer.Header.Instrs[len(outer.Header.Instrs)-1]) {
-				okOrder = false
+	for changed := true; changed; {
+		changed = false
+		for f := range in {
+			ok := len(g.In[f]) > 0
+			for _, e := range g.In[f] {
+				if e.Kind == EdgeRef && f.Parent() != nil {
+					continue // the closure is created here; its calls are edges of their own
+				}
+				if !(e.Caller == lf && e.Site != nil && e.Site.Block() != nil && l.Body[e.Site.Block()]) && !in[e.Caller] {
+					ok = false
+				}
+			}
+			if !ok {
+				delete(in, f)
+				changed = true
 			}
 		}
 	}
-	// delete key = loop element
-	sl, idx, _ := rangeLoopOver(outer)
-	cc := callCommon(del)
-	okKey := rangeElem(cc.Args[1], sl, idx)
-	c.Judge(okOrder && okKey, "aggregator.Flush emits a bucket before deleting it", c.At(del), fmt.Sprintf("%d send sites precede delete(aggregations, ts) in the iteration", len(sends)), "a bucket is deleted before (or without) all of its results having been sent, or the wrong key is deleted: results are lost or the bucket is emitted again on the next tick")
-	// bucket looked up with the loop element
-	okLookup := false
-	allInstrs(fl, func(in ssa.Instruction) {
-		if lk, ok := in.(*ssa.Lookup); ok && isFieldLoad(lk.X, aggsF) && rangeElem(lk.Index, sl, idx) {
-			okLookup = true
+	return in
+}
+
+func c10r3(c *Check) {
+	fl := c.P.Func("aggregator", "*Aggregator", "Flush")
+	outF := c.P.Field("aggregator", "Aggregator", "out")
+	aggsF := c.P.Field("aggregator", "Aggregator", "aggregations")
+	// the loop body may be split over helper methods that only Flush runs (emit(key, ts, results), flushBucket(ts))
+	funcs, lf, outer := c10flushLoop(c)
+	inLoop := insideLoop(c.P, funcs, lf, outer)
+	var sends, dels []ssa.Instruction
+	okPlace := true
+	for _, f := range funcs {
+		ss := sendsOn(f, outF)
+		var ds []ssa.Instruction
+		allInstrs(f, func(in ssa.Instruction) {
+			if cc, ok := isBuiltinCall(in, "delete"); ok && isFieldLoad(cc.Args[0], aggsF) {
+				ds = append(ds, in)
+			}
+		})
+		for _, in := range append(append([]ssa.Instruction(nil), ss...), ds...) {
+			if !(f == lf && outer.Body[in.Block()]) && !inLoop[f] {
+				okPlace = false
+			}
 		}
-	})
-	c.Judge(okLookup, "aggregator.Flush looks the bucket up by the listed timestamp", c.AtFn(fl), "aggregations[ts]", "the bucket flushed is not the one named by the tsList element")
-	// send / Inc pairing within one iteration
+		sends = append(sends, ss...)
+		dels = append(dels, ds...)
+	}
+	if len(sends) == 0 || len(dels) == 0 {
+		c.Violate("aggregator.Flush emits and forgets", c.AtFn(fl), "sends on Aggregator.out or delete(aggregations, ts) not found")
+		return
+	}
+	sl, idx, _ := rangeLoopOver(outer)
+	// one iteration of the loop, helpers expanded
 	var body *ssa.BasicBlock
 	for _, s := range outer.Header.Succs {
 		if outer.Body[s] {
@@ -327,27 +359,90 @@ func c10r3(c *Check) {
 		}
 	}
 	cfg := &PathCfg{
-		Stop: func(b *ssa.BasicBlock) bool { return b == outer.Header },
-		Classify: func(in ssa.Instruction) []string {
-			if s, ok := in.(*ssa.Send); ok && isFieldLoad(s.Chan, outF) {
-				return []string{"send"}
+		Stop:   func(b *ssa.BasicBlock) bool { return b == outer.Header },
+		Inline: inlineSameRecv(lf),
+		ClassifyV: func(in ssa.Instruction, resolve func(ssa.Value) ssa.Value) []string {
+			switch x := in.(type) {
+			case *ssa.Send:
+				if isFieldLoad(x.Chan, outF) {
+					return []string{"send"}
+				}
+			case *ssa.Select:
+				for _, st := range x.States {
+					if st.Dir == types.SendOnly && isFieldLoad(st.Chan, outF) {
+						return []string{"send"}
+					}
+				}
+			case *ssa.Lookup:
+				if isFieldLoad(x.X, aggsF) {
+					if rangeElem(resolve(x.Index), sl, idx) {
+						return []string{"lookup"}
+					}
+					return []string{"lookup:other"}
+				}
 			}
 			if f, ok := counterField(in); ok && f == "numFlushed" {
 				return []string{"inc"}
+			}
+			if cc, ok := isBuiltinCall(in, "delete"); ok && isFieldLoad(cc.Args[0], aggsF) {
+				if rangeElem(resolve(cc.Args[1]), sl, idx) {
+					return []string{"delete"}
+				}
+				return []string{"delete:other"}
 			}
 			return nil
 		},
 		BackEdgeMax: 1,
 	}
-	paths, _ := EnumPaths(fl, body, cfg)
-	bad := ""
+	paths, trunc := EnumPaths(lf, body, cfg)
+	badOrder, badLookup, badPair := "", "", ""
+	nIter := 0
 	for i := range paths {
 		pa := &paths[i]
+		d := pa.Index("delete")
+		for k, e := range pa.Events {
+			if e.Class == "send" && d >= 0 && k > d {
+				badOrder = "a result is sent after the bucket was deleted: " + pa.String()
+			}
+		}
+		if pa.Has("delete:other") {
+			badOrder = "an entry other than the one of the listed timestamp is deleted: " + pa.String()
+		}
+		if pa.Has("send") && !pa.Has("delete") {
+			badOrder = "results are sent but the bucket is not deleted: " + pa.String()
+		}
+		if pa.End == "stop" {
+			nIter++
+			if pa.Count("delete") != 1 {
+				badOrder = "a completed iteration does not delete its bucket exactly once: " + pa.String()
+			}
+			if !pa.Has("lookup") {
+				badLookup = "no lookup of aggregations[ts] in the iteration: " + pa.String()
+			}
+		}
+		if pa.Has("lookup:other") {
+			badLookup = "aggregations is read with a key that is not the loop's element: " + pa.String()
+		}
 		if pa.Count("send") != pa.Count("inc") {
-			bad = "sends and flushed-counter increments do not pair up: " + pa.String()
+			badPair = "sends and flushed-counter increments do not pair up: " + pa.String()
 		}
 	}
-	c.Judge(bad == "" && len(paths) > 0, "aggregator.Flush counts every emitted point once", c.AtFn(fl), fmt.Sprintf("%d iteration paths", len(paths)), bad)
+	if trunc || nIter == 0 {
+		badOrder = "path enumeration of one iteration incomplete"
+	}
+	at := dels[len(dels)-1]
+	c.Judge(okPlace && badOrder == "", "aggregator.Flush emits a bucket before deleting it", c.At(at), fmt.Sprintf("%d send sites precede delete(aggregations, ts) in the iteration", len(sends)), "a bucket is deleted before (or without) all of its results having been sent, or the wrong key is deleted: results are lost or the bucket is emitted again on the next tick"+ifs(badOrder != "", " — "+badOrder, " — a send or delete outside the loop over tsList"))
+	// bucket looked up with the loop element
+	c.Judge(badLookup == "" && nIter > 0, "aggregator.Flush looks the bucket up by the listed timestamp", c.AtFn(fl), "aggregations[ts]", "the bucket flushed is not the one named by the tsList element"+ifs(badLookup != "", " — "+badLookup, ""))
+	// send / Inc pairing within one iteration
+	c.Judge(badPair == "" && len(paths) > 0, "aggregator.Flush counts every emitted point once", c.AtFn(fl), fmt.Sprintf("%d iteration paths", len(paths)), badPair)
+}
+
+func ifs(c bool, a, b string) string {
+	if c {
+		return a
+	}
+	return b
 }
 
 func c10r4(c *Check) {
@@ -384,46 +479,66 @@ func c10r4(c *Check) {
 		pos = c.At(at)
 	}
 	c.Judge(ok, "aggregator.run bucket = ts − ts % Interval of the point's own timestamp", pos, "quantized timestamp passed to AddOrCreate", "the bucket key is not the point's timestamp rounded down to the interval")
-	// Flush: Sprintf("%s %f %d", key, val, ts) with ts = tsList element
+	// Flush: Sprintf("%s %f %d", key, val, ts) with ts = tsList element; the sends may sit in helper
+	// methods that only Flush runs, the timestamp then arrives through their parameters
 	fl := c.P.Func("aggregator", "*Aggregator", "Flush")
-	tsF := c.P.Field("aggregator", "Aggregator", "tsList")
 	var formats []string
-	okTs := true
-	loops := loopsOf(fl)
-	var outer *Loop
-	for _, l := range loops {
-		if sl, _, isR := rangeLoopOver(l); isR && isFieldLoad(sl, tsF) {
-			outer = l
+	okTs, okFresh := true, true
+	funcs, _, outer := c10flushLoop(c)
+	sl2, idx, _ := rangeLoopOver(outer)
+	var isElem func(v ssa.Value, d int) bool
+	isElem = func(v ssa.Value, d int) bool {
+		if rangeElem(v, sl2, idx) {
+			return true
 		}
-	}
-	outF := c.P.Field("aggregator", "Aggregator", "out")
-	allInstrs(fl, func(in ssa.Instruction) {
-		snd, isSend := in.(*ssa.Send)
-		if !isSend || !isFieldLoad(snd.Chan, outF) {
-			return
+		par, isPar := strip(v).(*ssa.Parameter)
+		if !isPar || d > 4 {
+			return false
 		}
-		// the line, however it is put together (Sprintf, concatenation, strconv)
-		f, ops, ok := textTemplate(snd.X, 0)
-		if !ok {
-			formats = append(formats, "?")
-			return
+		args, known := c.P.paramArgs(par)
+		if !known || len(args) == 0 {
+			return false
 		}
-		formats = append(formats, f)
-		// the last operand is the tsList element of the enclosing loop
-		if len(ops) == 0 {
-			okTs = false
-			return
-		}
-		v := ops[len(ops)-1]
-		if outer != nil {
-			sl2, idx, _ := rangeLoopOver(outer)
-			if !rangeElem(v, sl2, idx) {
-				okTs = false
+		for _, a := range args {
+			if !isElem(a, d+1) {
+				return false
 			}
 		}
-	})
+		return true
+	}
+	outF := c.P.Field("aggregator", "Aggregator", "out")
+	for _, f := range funcs {
+		allInstrs(f, func(in ssa.Instruction) {
+			snd, isSend := in.(*ssa.Send)
+			if !isSend || !isFieldLoad(snd.Chan, outF) {
+				return
+			}
+			// the line, however it is put together (Sprintf, concatenation, strconv, append)
+			var bases []ssa.Value
+			f, ops, ok := textTemplateB(snd.X, 0, nil, &bases)
+			if !ok {
+				formats = append(formats, "?")
+				return
+			}
+			formats = append(formats, f)
+			// the receiver keeps the slice: a line written by append into a buffer must own that buffer —
+			// the buffer is allocated in the iteration that sends it, not once for several sends
+			if l := innermostLoop(loopsOf(snd.Parent()), snd.Block()); l != nil {
+				for _, b := range bases {
+					bi, isInstr := b.(ssa.Instruction)
+					if !isInstr || bi.Parent() != snd.Parent() || bi.Block() == nil || !l.Body[bi.Block()] {
+						okFresh = false
+					}
+				}
+			}
+			// the last operand is the tsList element of the enclosing loop
+			if len(ops) == 0 || !isElem(ops[len(ops)-1], 0) {
+				okTs = false
+			}
+		})
+	}
 	sort.Strings(formats)
-	c.Judge(strings.Join(formats, "|") == "%s %f %d|%s.%s %f %d" && okTs, "aggregator.Flush output lines `name value bucketstart`", c.AtFn(fl), strings.Join(formats, " | "), fmt.Sprintf("output formats %v (timestamp is the bucket key: %v) differ from `%%s %%f %%d` / `%%s.%%s %%f %%d` with the bucket start as timestamp", formats, okTs))
+	c.Judge(strings.Join(formats, "|") == "%s %f %d|%s.%s %f %d" && okTs && okFresh, "aggregator.Flush output lines `name value bucketstart`", c.AtFn(fl), strings.Join(formats, " | "), fmt.Sprintf("output formats %v (timestamp is the bucket key: %v; each line in a buffer of its own: %v) differ from `%%s %%f %%d` / `%%s.%%s %%f %%d` with the bucket start as timestamp, each line a slice that no later line is written into", formats, okTs, okFresh))
 }
 
 func c10r5(c *Check) {
@@ -451,6 +566,8 @@ func c10r5(c *Check) {
 			}
 		}
 	}
+	// the same registry written as a table: `if f, ok := constructors[fun]; ok { return f, nil }`
+	c10registryTable(c, gp, par, cases)
 	// docs
 	rows, err := docFunctionTable(filepath.Join(c.P.Dir, "docs", "aggregation.md"))
 	if err != nil {
@@ -503,6 +620,129 @@ func c10r5(c *Check) {
 			c.Judge(reg, "aggregator processor "+n+" is registered", c.AtFn(gp), "returned by a registry case", "Processor implementation "+n+" is not reachable through any configured function name")
 		}
 	}
+}
+
+// c10registryTable: the registry written as a lookup in a package-level table —
+// `if f, ok := table[name]; ok { return f }` (or `f := table[name]; if f != nil { return f }`):
+// the entries of the table's literal are the cases. The table must be initialised once, from a
+// literal with constant keys, and never be written at run time.
+func c10registryTable(c *Check, gp *ssa.Function, par ssa.Value, cases map[string]string) {
+	allInstrs(gp, func(in ssa.Instruction) {
+		lk, ok := in.(*ssa.Lookup)
+		if !ok || strip(lk.Index) != par {
+			return
+		}
+		u, ok := lk.X.(*ssa.UnOp)
+		if !ok {
+			return
+		}
+		g, ok := u.X.(*ssa.Global)
+		if !ok {
+			return
+		}
+		// the looked-up function is returned on the edge that found it
+		returned := false
+		var val, found ssa.Value = lk, nil
+		if lk.CommaOk {
+			val = nil
+			for _, r := range *lk.Referrers() {
+				if ex, ok := r.(*ssa.Extract); ok {
+					if ex.Index == 0 {
+						val = ex
+					} else {
+						found = ex
+					}
+				}
+			}
+		}
+		if val == nil {
+			return
+		}
+		allInstrs(gp, func(in2 ssa.Instruction) {
+			r, ok := in2.(*ssa.Return)
+			if !ok || len(r.Results) == 0 || r.Results[0] != val {
+				return
+			}
+			for _, b := range gp.Blocks {
+				ifi, ok := b.Instrs[len(b.Instrs)-1].(*ssa.If)
+				if !ok {
+					continue
+				}
+				cnd, neg := negStrip(ifi.Cond)
+				succ := 0
+				if found != nil && cnd == found {
+					if neg {
+						succ = 1
+					}
+				} else if bo, ok := cnd.(*ssa.BinOp); ok && found == nil && (bo.Op == token.NEQ || bo.Op == token.EQL) && bo.X == val {
+					if k, ok := bo.Y.(*ssa.Const); !ok || !k.IsNil() {
+						continue
+					}
+					if (bo.Op == token.EQL) != neg {
+						succ = 1
+					}
+				} else {
+					continue
+				}
+				if edgeDominates(b, b.Succs[succ], r.Block()) {
+					returned = true
+				}
+			}
+		})
+		if !returned {
+			return
+		}
+		// the literal
+		nStores, okAll := 0, true
+		ents := map[string]string{}
+		for _, fn := range c.P.Funcs {
+			fn := fn
+			allInstrs(fn, func(in3 ssa.Instruction) {
+				switch x := in3.(type) {
+				case *ssa.Store:
+					if x.Addr != ssa.Value(g) {
+						return
+					}
+					nStores++
+					mk, ok := x.Val.(*ssa.MakeMap)
+					if !ok || fn.Name() != "init" {
+						okAll = false
+						return
+					}
+					for _, r := range *mk.Referrers() {
+						mu, ok := r.(*ssa.MapUpdate)
+						if !ok {
+							continue
+						}
+						k, ok1 := constString(mu.Key)
+						f := resolveFuncValue(mu.Value)
+						if _, dup := ents[k]; !ok1 || f == nil || dup {
+							okAll = false
+							continue
+						}
+						ents[k] = f.Name()
+					}
+				case *ssa.MapUpdate:
+					if u, ok := x.Map.(*ssa.UnOp); ok && u.X == ssa.Value(g) {
+						okAll = false // written at run time
+					}
+				case *ssa.Call:
+					if cc, ok := isBuiltinCall(x, "delete"); ok {
+						if u, ok := cc.Args[0].(*ssa.UnOp); ok && u.X == ssa.Value(g) {
+							okAll = false
+						}
+					}
+				}
+			})
+		}
+		if !okAll || nStores != 1 {
+			c.Undecided("aggregator function table "+g.Name(), c.At(lk), "the registry table is not a literal with constant keys and function values that is initialised once and never written afterwards")
+			return
+		}
+		for k, f := range ents {
+			cases[k] = f
+		}
+	})
 }
 
 // docFunctionTable: first column of the table under "## functions".
@@ -573,17 +813,131 @@ func c10r6(c *Check) {
 	if nApp == 0 {
 		anchorFail("aggregator: no append to tsList")
 	}
-	// TsSlice is a plain uint ordering
-	less := c.P.Func("aggregator", "TsSlice", "Less")
-	okLess := false
-	allInstrs(less, func(in ssa.Instruction) {
-		if ret, ok := in.(*ssa.Return); ok && len(ret.Results) == 1 {
-			if bo, ok := ret.Results[0].(*ssa.BinOp); ok && bo.Op == token.LSS && indexParam(bo.X, less) == 1 && indexParam(bo.Y, less) == 2 {
-				okLess = true
+	// every library sort of tsList orders ascending: a sort.Interface whose Less is `p[i] < p[j]`, a
+	// less-function `s[i] < s[j]` over the same list, or the natural order of slices.Sort
+	nSort := 0
+	for _, fn := range c.P.Funcs {
+		if fnPkg(fn) != pkg {
+			continue
+		}
+		fn := fn
+		allInstrs(fn, func(in ssa.Instruction) {
+			cc := callCommon(in)
+			if cc == nil || !sortFns[calleeName(cc)] || len(cc.Args) == 0 || !derivedFromField(cc.Args[0], tsF) {
+				return
+			}
+			nSort++
+			okLess, what := false, ""
+			switch calleeName(cc) {
+			case "slices.Sort":
+				okLess, what = true, "natural order"
+			case "sort.Sort", "sort.Stable":
+				// the dynamic type handed to the sort and its Less method
+				var less *ssa.Function
+				if mi, ok := cc.Args[0].(*ssa.MakeInterface); ok {
+					less = c.P.SSA.LookupMethod(mi.X.Type(), pkg, "Less")
+				}
+				if less == nil {
+					what = "the Less method of the sorted value was not found"
+					break
+				}
+				recv := func(v ssa.Value) bool { return len(less.Params) == 3 && v == ssa.Value(less.Params[0]) }
+				okLess, what = lessAscending(less, recv, 1, 2), FuncName(less)
+			case "sort.Slice", "sort.SliceStable":
+				less := resolveFuncValue(cc.Args[1])
+				if less == nil {
+					what = "the less function is not a known function"
+					break
+				}
+				same := func(v ssa.Value) bool { return sameSliceAs(v, cc.Args[0], cc.Args[1], tsF) }
+				okLess, what = len(less.Params) == 2 && lessAscending(less, same, 0, 1), "less function "+FuncName(less)
+			default:
+				c.Undecided(FuncName(fn)+" sorts tsList ascending", c.At(in), calleeName(cc)+" with a comparison function this rule does not interpret")
+				return
+			}
+			c.Judge(okLess, FuncName(fn)+" sorts tsList ascending", c.At(in), what+": element i < element j", "tsList is not sorted ascending ("+what+"): buckets are flushed newest first and Flush's early exit skips due buckets")
+		})
+	}
+	if nSort == 0 {
+		anchorFail("aggregator: no library sort of tsList")
+	}
+}
+
+// lessAscending: fn's only result is `s[i] < s[j]` (or `s[j] > s[i]`) with i, j its parameters
+// number pi, pj and s a slice accepted by isList.
+func lessAscending(fn *ssa.Function, isList func(ssa.Value) bool, pi, pj int) bool {
+	if len(fn.Params) <= pi || len(fn.Params) <= pj {
+		return false
+	}
+	elem := func(v ssa.Value, k int) bool {
+		u, ok := strip(v).(*ssa.UnOp)
+		if !ok || u.Op != token.MUL {
+			return false
+		}
+		ia, ok := u.X.(*ssa.IndexAddr)
+		return ok && ia.Index == ssa.Value(fn.Params[k]) && isList(ia.X)
+	}
+	n, okAll := 0, true
+	allInstrs(fn, func(in ssa.Instruction) {
+		ret, ok := in.(*ssa.Return)
+		if !ok {
+			return
+		}
+		n++
+		okR := false
+		if len(ret.Results) == 1 {
+			if bo, ok := ret.Results[0].(*ssa.BinOp); ok {
+				switch bo.Op {
+				case token.LSS:
+					okR = elem(bo.X, pi) && elem(bo.Y, pj)
+				case token.GTR:
+					okR = elem(bo.X, pj) && elem(bo.Y, pi)
+				}
 			}
 		}
+		if !okR {
+			okAll = false
+		}
 	})
-	c.Judge(okLess, "aggregator.TsSlice.Less is ascending", c.AtFn(less), "p[i] < p[j]", "TsSlice does not sort ascending: buckets are flushed newest first and Flush's early exit skips due buckets")
+	return n > 0 && okAll
+}
+
+// sameSliceAs: v, read inside the closure `closure`, is the list that `sorted` (the first argument
+// of the sort call) denotes: a read of the same field, or of the captured variable whose value
+// was handed to the sort.
+func sameSliceAs(v, sorted, closure ssa.Value, f *types.Var) bool {
+	if isFieldLoad(v, f) {
+		return true
+	}
+	u, ok := v.(*ssa.UnOp)
+	if !ok || u.Op != token.MUL {
+		return false
+	}
+	fv, ok := u.X.(*ssa.FreeVar)
+	mc, ok2 := closure.(*ssa.MakeClosure)
+	if !ok || !ok2 {
+		return false
+	}
+	for i, b := range mc.Bindings {
+		if i < len(fv.Parent().FreeVars) && fv.Parent().FreeVars[i] == fv {
+			// the captured cell holds the sorted list
+			if al, ok := b.(*ssa.Alloc); ok {
+				if s := cellValue(al); s != nil && derivedFromField(s, f) {
+					for w := sorted; ; {
+						switch x := w.(type) {
+						case *ssa.MakeInterface:
+							w = x.X
+							continue
+						case *ssa.UnOp:
+							return x.X == ssa.Value(al)
+						}
+						return false
+					}
+				}
+			}
+		}
+	}
+	return false
 }
 
 func c10sortedAfterAppend(c *Check, fn *ssa.Function, app *ssa.Store, q ssa.Value, tsF *types.Var, sortFns map[string]bool) {
